@@ -426,6 +426,7 @@ func writeEvidenceFile(cfg *Config, prop string, results []*HarnessResult, viola
 		}
 		if r.H.Conc {
 			hd["thread_path_combinations"] = r.ConcCombos
+			hd["combinations_pruned_without_solver"] = r.PrunedCombos
 			hd["combinations_with_a_consistent_schedule"] = r.FeasibleCombos
 			hd["events_encoded"] = r.Events
 		}
